@@ -1,5 +1,6 @@
 import Driver.Registry
 import Driver.Exec
+import Driver.Relative
 import Driver.Export
 import Driver.Codec
 import Driver.IOSpec
@@ -12,6 +13,7 @@ def main (args : List String) : IO UInt32 := do
   match args with
   | ["registry"] => Driver.Registry.main; return 0
   | ["exec"] => Driver.Exec.main; return 0
+  | ["relative"] => Driver.Relative.main; return 0
   | ["export"] => Driver.Export.main; return 0
   | ["codec"] => Driver.Codec.main; return 0
   | ["iospec"] => Driver.IOSpec.main; return 0
